@@ -1,7 +1,196 @@
-/- C07 line-protocol driver (core-only). Stub until the property's model lands. -/
+/- C07 line-protocol driver (core-only). -/
+import BV.Common.Hex
+import BV.Common.Sha256
+import BV.C07.Spec
+import BV.C07.Model
+import BV.C07.Expect
 namespace BV.C07.Driver
+open BV.Hex BV.C07
+
+def sha (b : Bytes) : Bytes := BV.Sha256.hashList b
+
+def u32? (s : String) : Option UInt32 := do
+  let n ← s.toNat?
+  if n < 2^32 then some (UInt32.ofNat n) else none
+
+/-- signed 64-bit decimal → bit pattern -/
+def i64? (s : String) : Option UInt64 := do
+  let i ← s.toInt?
+  if i < -(2^63 : Int) ∨ i ≥ (2^63 : Int) then none
+  else some (UInt64.ofNat (i % (2^64 : Int)).toNat)
+
+/-- signed 32-bit decimal → bit pattern -/
+def i32? (s : String) : Option UInt32 := do
+  let i ← s.toInt?
+  if i < -(2^31 : Int) ∨ i ≥ (2^31 : Int) then none
+  else some (UInt32.ofNat (i % (2^32 : Int)).toNat)
+
+def listOf? {α : Type} (sep : String) (p : String → Option α) (s : String) : Option (List α) :=
+  if s == "-" then some [] else (s.splitOn sep).mapM p
+
+/-- input: `hash:index:script:seq:w1.w2…` -/
+def txIn? (s : String) : Option TxIn :=
+  match s.splitOn ":" with
+  | [h, i, sc, sq, w] => do
+    let h ← hexToList? h
+    if h.length ≠ 32 then none
+    let i ← u32? i
+    let sc ← hexToList? sc
+    let sq ← u32? sq
+    let w ← listOf? "." hexToList? w
+    pure ⟨⟨h, i⟩, sc, sq, w⟩
+  | _ => none
+
+/-- output: `value:script` -/
+def txOut? (s : String) : Option TxOut :=
+  match s.splitOn ":" with
+  | [v, sc] => do
+    let v ← i64? v
+    let sc ← hexToList? sc
+    pure ⟨v, sc⟩
+  | _ => none
+
+/-- tx: `version/ins/outs/locktime` -/
+def tx? (s : String) : Option Tx :=
+  match s.splitOn "/" with
+  | [v, ins, outs, lt] => do
+    let v ← i32? v
+    let ins ← listOf? "," txIn? ins
+    let outs ← listOf? "," txOut? outs
+    let lt ← u32? lt
+    pure ⟨v, ins, outs, lt⟩
+  | _ => none
+
+def spent? (s : String) : Option (List TxOut) := listOf? "," txOut? s
+
+/-- the fetcher the harness builds: keyed by outpoint, first occurrence wins -/
+def mkFetch (tx : Tx) (spent : List TxOut) : OutPoint → TxOut :=
+  fun o => match (tx.ins.zip spent).find? (fun p => p.1.prev == o) with
+    | some p => p.2
+    | none => ⟨0, []⟩
+
+def showOut : Model.Out → String
+  | .digest d => listToHex d
+  | .err => "err"
+  | .panic => "panic"
+
+def handleLegacy (api : Bool) (tx : Tx) (idx : Nat) (ht : UInt32) (script : Bytes) : String :=
+  -- Spec where it is defined (script parses, idx is an input); the model of the code otherwise
+  match Spec.legacySigHash sha script ht tx idx with
+  | some d => listToHex d
+  | none =>
+    if api then showOut (Model.CalcSignatureHash sha script ht tx idx)
+    else showOut (Model.calcSignatureHash sha script ht tx idx)
+
+def handleWit (api : Bool) (tx : Tx) (spent : List TxOut) (idx : Nat) (ht : UInt32) (sub : Bytes)
+    (amt : UInt64) : String :=
+  let fetch := mkFetch tx spent
+  let sh := Model.newTxSigHashes sha tx fetch
+  -- with midstates that were computed for a v0 input the digest is the BIP143 one (theorem
+  -- cache_eq_nocache); otherwise the model of the code
+  if (Model.scanInputs fetch tx.ins false false).1 && (!api || parses sub) then
+    match Spec.bip143Digest sha (Spec.witScriptCode sub) ht tx idx amt with
+    | some d => listToHex d
+    | none => "err"
+  else if api then showOut (Model.CalcWitnessSigHash sha sub sh ht tx idx amt)
+  else showOut (Model.calcWitnessSignatureHashRaw sha sub sh ht tx idx amt)
+
+def handleTap (tx : Tx) (spent : List TxOut) (idx : Nat) (ht : UInt32) (annex : Option Bytes)
+    (ext : Option Spec.TapExt) : String :=
+  let fetch := mkFetch tx spent
+  if (Model.scanInputs fetch tx.ins false false).2 then
+    match Spec.bip341Digest sha ht tx (tx.ins.map (fun i => fetch i.prev)) idx annex ext with
+    | .ok d => listToHex d
+    | .error _ => "err"
+  else
+    let sh := Model.newTxSigHashes sha tx fetch
+    let o : Model.TaprootSigHashOptions := {}
+    let o := match ext with
+      | some e => Model.withBaseTapscriptVersion e.codeSepPos e.leafHash o
+      | none => o
+    let o := match annex with
+      | some a => Model.withAnnex sha a o
+      | none => o
+    showOut (Model.calcTaprootSignatureHashRaw sha sh ht tx idx fetch o)
+
+def annex? (s : String) : Option (Option Bytes) :=
+  if s == "x" then some none else (hexToList? s).map some
+
+def ext? (s : String) : Option (Option Spec.TapExt) :=
+  if s == "x" then some none else
+  match s.splitOn ":" with
+  | [lh, cs] => do
+    let lh ← hexToList? lh
+    let cs ← u32? cs
+    pure (some ⟨lh, 0, cs⟩)
+  | _ => none
+
+/-- sigcache op: `a:hash:sig:pk` add, `e:hash:sig:pk` exists -/
+def sigCacheRun (cap : Nat) (ops : List String) : Option String := do
+  let mut c := Model.SigCache.new cap
+  let mut out : List String := []
+  for o in ops do
+    match o.splitOn ":" with
+    | [k, h, s, p] =>
+      let h ← hexToList? h
+      let s ← hexToList? s
+      let p ← hexToList? p
+      if k == "a" then c := c.add 0 h s p
+      else if k == "e" then out := out ++ [if c.exists h s p then "1" else "0"]
+      else none
+    | _ => none
+  pure (if out.isEmpty then "-" else String.intercalate "," out)
 
 def handle : List String → String
-  | _ => "unimplemented"
+  | "sigcache" :: cap :: ops =>
+    match cap.toNat? with
+    | some cap => (sigCacheRun cap ops).getD "bad-op"
+    | none => "bad-op"
+  | ["sign", form, _mode, _cache, ht, idx, otx, osp, mtx, msp] =>
+    match Expect.Form.parse? form, u32? ht, idx.toNat?, tx? otx, spent? osp, tx? mtx, spent? msp with
+    | some form, some ht, some idx, some otx, some osp, some mtx, some msp =>
+      if idx ≥ mtx.ins.length ∨ idx ≥ msp.length then "bad-op" else
+      if Expect.stillVerifies form ht idx ⟨otx, osp⟩ ⟨mtx, msp⟩ then "verified" else "failed"
+    | _, _, _, _, _, _, _ => "bad-op"
+  | ["helper", form, ht, idx, _nIns, nOuts, _obs] =>
+    match Expect.Form.parse? form, u32? ht, idx.toNat?, nOuts.toNat? with
+    | some form, some ht, some idx, some nOuts =>
+      if Expect.helperErrs form ht idx nOuts then "err" else "ok"
+    | _, _, _, _ => "bad-op"
+  | [op, tx, idx, ht, script] =>
+    if op == "legacy" || op == "legacyapi" then
+      match tx? tx, idx.toNat?, u32? ht, hexToList? script with
+      | some tx, some idx, some ht, some script => handleLegacy (op == "legacyapi") tx idx ht script
+      | _, _, _, _ => "bad-op"
+    else "bad-op"
+  | [op, tx, sp, idx, ht, sub, amt] =>
+    if op == "wit" || op == "witapi" then
+      match tx? tx, spent? sp, idx.toNat?, u32? ht, hexToList? sub, i64? amt with
+      | some tx, some sp, some idx, some ht, some sub, some amt =>
+        if sp.length ≠ tx.ins.length then "bad-op" else handleWit (op == "witapi") tx sp idx ht sub amt
+      | _, _, _, _, _, _ => "bad-op"
+    else if op == "tap" then
+      match tx? tx, spent? sp, idx.toNat?, u32? ht, annex? sub, ext? amt with
+      | some tx, some sp, some idx, some ht, some annex, some ext =>
+        if sp.length ≠ tx.ins.length then "bad-op" else handleTap tx sp idx ht annex ext
+      | _, _, _, _, _, _ => "bad-op"
+    else "bad-op"
+  | ["rmop", script, op] =>
+    match hexToList? script, op.toNat? with
+    | some s, some o =>
+      if o ≥ 256 then "bad-op" else
+      match Spec.stripOp (UInt8.ofNat o) s with
+      | some r => listToHexTok r
+      | none => listToHexTok (Model.removeOpcodeRaw s (UInt8.ofNat o))
+    | _, _ => "bad-op"
+  | ["rmdata", script, data] =>
+    match hexToList? script, hexToList? data with
+    | some s, some d =>
+      let (r, m) := match Spec.findAndDelete s d with
+        | some x => x
+        | none => Model.removeOpcodeByData s d
+      listToHexTok r ++ " " ++ (if m then "1" else "0")
+    | _, _ => "bad-op"
+  | _ => "bad-op"
 
 end BV.C07.Driver
